@@ -151,7 +151,12 @@ PAYLOAD_OBJ = {}     # pid -> returned value / raised exception object (identity
 class Ctx:
     def __init__(self, scn):
         self.scn = scn
-        self.runners = [ServiceRunner(accept_delay=r.get("accept_delay", 0.05)) for r in scn["runners"]]
+        # {"same_as": k}: the very runtime object of entry k, used for a further run after its earlier run ended
+        # (every run is a runner of its own to the model; what the object carries over is the code's business)
+        self.runners = []
+        for r in scn["runners"]:
+            self.runners.append(self.runners[r["same_as"]] if "same_as" in r
+                                else ServiceRunner(accept_delay=r.get("accept_delay", 0.05)))
         self.services = {}
         self.ended = set()          # runners whose accept() has returned
         self.accepting = set()      # runners whose accept() is in progress
@@ -159,6 +164,9 @@ class Ctx:
             threading.Thread(target=self._watch_running, args=(i, r), daemon=True).start()
 
     def _watch_running(self, i, r):
+        prev = self.scn["runners"][i].get("same_as")
+        while prev is not None and prev not in self.ended:
+            time.sleep(0.002)
         r.running.wait()
         log("RunningSet", i)
 
@@ -169,7 +177,13 @@ class Ctx:
         fn = make_payload(self, pid)
         args = decode_args(spec.get("args", []))
         kwargs = {k: decode_arg(v) for k, v in spec.get("kwargs", {}).items()}
-        log("AdoptCall", who, rid, pid, fl)
+        if "shared" in spec:
+            tok = thread_token()
+            with LOCK:        # announce, then make the id available to the shared function, atomically
+                LOG.append({"t": round(time.monotonic() - T0, 4), "tid": tok, "ev": ["AdoptCall", who, rid, pid, fl]})
+                SHARED[spec["shared"]][1].append(pid)
+        else:
+            log("AdoptCall", who, rid, pid, fl)
         try:
             res = self.runners[rid].adopt(fn, *args, flavour=FLAV[fl], **kwargs)
             out = "ok" if res is None else "returned:%s" % type(res).__name__
@@ -389,6 +403,12 @@ async def run_async(ctx, key, spec, args, kwargs=None, executed=False):
                     await sleep(0.003)
             elif op == "adopt":
                 ctx.do_adopt(who, st[1], st[2])
+            elif op == "adopt_many":
+                for w in st[2]:
+                    if st[1] in ctx.ended:
+                        break
+                    ctx.do_adopt(who, st[1], w)
+                    await sleep(st[3])
             elif op == "execute":
                 ctx.do_execute(who, st[1], st[2])
             elif op == "service":
@@ -455,6 +475,12 @@ def run_sync(ctx, key, spec, args, kwargs=None, executed=False):
             event(st[1]).wait()
         elif op == "adopt":
             ctx.do_adopt(who, st[1], st[2])
+        elif op == "adopt_many":
+            for w in st[2]:
+                if st[1] in ctx.ended:
+                    break
+                ctx.do_adopt(who, st[1], w)
+                time.sleep(st[3])
         elif op == "execute":
             ctx.do_execute(who, st[1], st[2])
         elif op == "adopt_private_loop":
@@ -547,12 +573,21 @@ def run_program(ctx, who, prog):
         op = st[0]
         if op == "adopt":
             ctx.do_adopt(who, st[1], st[2])
+        elif op == "adopt_many":
+            for w in st[2]:
+                if st[1] in ctx.ended:
+                    break
+                ctx.do_adopt(who, st[1], w)
+                time.sleep(st[3])
         elif op == "adopt_private_loop":
             adopt_in_private_loop(ctx, who, st[1], st[2])
         elif op == "execute":
             ctx.do_execute(who, st[1], st[2])
         elif op == "service":
             ctx.do_service(who, st[1])
+        elif op == "service_many":
+            for sid_ in st[1]:
+                ctx.do_service(who, sid_)
         elif op == "accept":
             ctx.do_accept(who, st[1])
         elif op == "shutdown":
